@@ -447,7 +447,8 @@ class Repo:
             f = self.func(key)
             cur = [p[0] for p in f.params()]
             if cur != info['params'] and len(cur) == len(info['params']):
-                f.param_alias = {c: o for c, o in zip(cur, info['params']) if c != o}
+                # by position, but never across a permutation: a name that is still in use keeps its meaning
+                f.param_alias = {c: o for c, o in zip(cur, info['params']) if c != o and o not in cur and c not in info['params']}
 
     # ---------------------------------------------------------------- lookup
     def func(self, key):
